@@ -8,6 +8,11 @@
  *   valid <idlen> <hex>                     -> =<gc0ValidIdInBuf text>
  *   global <idlen> <idhash 0/1> <hex>       -> =<gc0MultVarId("G",0,name)> =<gc0MultVarId("pG",0,name)>
  *   local <idlen> <kindhex> <index> <hex>   -> =<gc0MultVarId(kind,index,name)> =<gc0VarId(kind,index)>
+ *   lit <std 0/1> <s|c> <hex>               -> hex of what the real ccoPrint writes for a string (s) or
+ *                                              character (c) literal token with that text, old or standard C
+ *   inits <idlen> <smax> <unithex> <importhex>...
+ *        -> the sorted set of INIT__... identifiers occurring anywhere in genC's code for a unit that
+ *           imports the initialisers of the named units ; the same for genAXLmainC(unit)
  *   split <smax> <nglo> <basehex> <body sizes...>      (old C;  `splitS ...` = standard C)
  *        -> <n> [CF indices/INIT indices defined by code-list element 0] ... ;
  *           <file>=<CF indices/INIT indices defined in the written file> ... (sorted by name)
@@ -193,6 +198,98 @@ static void run_split(void)
 	bufFree(out); bufFree(inits);
 }
 
+
+/* ------------------------------------------------------------------ literals through ccoPrint */
+static void run_lit(void)
+{
+	char *s = unhex(drv_tok[3]), *mem = NULL;
+	size_t len = 0, i, a, b;
+	FILE *f = open_memstream(&mem, &len);
+	CCode cc = ccoNewToken(drv_tok[2][0] == 'c' ? CCO_CharVal : CCO_StringVal, symIntern(s));
+	ccoPrint(f, cc, atoi(drv_tok[1]) ? CCOM_StandardC : CCOM_OldC);
+	fclose(f);
+	/* strip the layout ccoPrint adds around the token (newlines, blanks) */
+	a = 0; b = len;
+	while (a < b && (mem[a] == '\n' || mem[a] == ' ' || mem[a] == '\t')) a++;
+	while (b > a && (mem[b-1] == '\n' || mem[b-1] == ' ' || mem[b-1] == '\t')) b--;
+	if (a == b) printf("-");
+	for (i = a; i < b; i++) printf("%02x", (unsigned char) mem[i]);
+	free(mem); free(s);
+}
+
+/* ------------------------------------------------------------------ module initialiser names */
+static char *initv[4096];
+static int initc;
+
+static void collect_inits(CCode cc)
+{
+	int i;
+	if (!cc) return;
+	if (ccoInfo(ccoTag(cc)).kind == CCOK_Token) {
+		if (ccoTag(cc) == CCO_Id) {
+			String s = symString(cc->ccoToken.symbol);
+			if (!strncmp(s, "INIT_", 5)) {
+				for (i = 0; i < initc; i++) if (!strcmp(initv[i], s)) return;
+				if (initc < 4096) initv[initc++] = s;
+			}
+		}
+		return;
+	}
+	for (i = 0; i < ccoArgc(cc); i++) collect_inits(ccoArgv(cc)[i]);
+}
+
+static void print_inits(void)
+{
+	int i;
+	qsort(initv, initc, sizeof(char *), cmpstr);
+	for (i = 0; i < initc; i++) printf("%s%s", i ? " " : "", initv[i]);
+}
+
+static void run_inits(void)
+{
+	int i, bodies[3] = {2, 1, 1};
+	char *unit = unhex(drv_tok[3]);
+	Foam foam;
+	CCodeList l, l0;
+	SExpr sx;
+	FILE *f;
+	genCSetIdLen(atoi(drv_tok[1]));
+	genCSetSMax(atoi(drv_tok[2]));
+	genCSetIdHash(true);
+	if (!sxbuf) sxbuf = bufNew();
+	bufStart(sxbuf);
+	bufPrintf(sxbuf, "(Unit (DFmt (DDecl Globals (GDecl Clos \"%s\" -1 4 0 Init)", unit);
+	for (i = 4; i < drv_ntok; i++) {
+		char *im = unhex(drv_tok[i]);
+		bufPrintf(sxbuf, " (GDecl Clos \"%s\" -1 4 1 Init)", im);
+		free(im);
+	}
+	bufPrintf(sxbuf, ") (DDecl Consts");
+	for (i = 0; i < 3; i++) bufPrintf(sxbuf, " (Decl Prog \"c%d\" -1 4)", i);
+	bufPrintf(sxbuf, ") (DDecl LocalEnv) (DDecl Fluids) (DDecl Locals) (DDecl LocalEnv)) (DDef");
+	for (i = 0; i < 3; i++) {
+		bufPrintf(sxbuf, " (Def (Const %d c%d) ", i, i);
+		put_prog(bodies[i], i == 0, 3, 0);
+		bufPrintf(sxbuf, ")");
+	}
+	bufPrintf(sxbuf, "))");
+	bufAdd1(sxbuf, char0);
+	f = tmpfile();
+	fputs(bufChars(sxbuf), f);
+	rewind(f);
+	foam = foamRdSExpr(f, NULL, NULL);
+	fclose(f);
+	l0 = genC(foam, unit);
+	initc = 0;
+	for (l = l0; l; l = cdr(l)) collect_inits(car(l));
+	print_inits();
+	printf(" ; ");
+	initc = 0;
+	collect_inits(genAXLmainC(unit));
+	print_inits();
+	free(unit);
+}
+
 int main(int argc, char **argv)
 {
 	osInit();
@@ -243,6 +340,8 @@ int main(int argc, char **argv)
 			printf(" =%s", ccoIdText(gc0VarId(k, ix)));
 			free(k); free(s);
 		}
+		else if (!strcmp(drv_tok[0], "lit") && drv_ntok == 4) run_lit();
+		else if (!strcmp(drv_tok[0], "inits") && drv_ntok >= 4) run_inits();
 		else if (!strcmp(drv_tok[0], "split") || !strcmp(drv_tok[0], "splitS")) run_split();
 		else printf("bad-op");
 		DRV_EMIT();
